@@ -133,6 +133,23 @@ func propDefs() map[string]propDef {
 			"data races outside tracker state (e.g. inside the shared json.Encoder of the EventWriter) are not covered"},
 		Explain: "lock-discipline obligations generated by the same symbolic execution: (atomic) each of the four public operations acquires the tracker's mutex exactly once and every acquisition of a map lock, every access to a guarded map and every access to a field of a user object happens while it is held; (guard) every access to GenericSyncMap.m holds that map's mtx; (lockorder) no lock is acquired while already held (the callbacks never re-enter their map), nothing is held at return; plus the invariant proofs as lock invariant of the tracker mutex",
 	}
+	hu := func(fn string) unit { return unit{Fn: "internal/health." + fn, Conc: true} }
+	m["C18"] = propDef{ID: "C18", Level: "proof",
+		Units: []unit{hu("NewHealth"), hu("(*Health).AddReadiness"), hu("(*Health).OnReady"), hu("(*Health).IsReady"), hu("(*Health).GetReadyzStatusMap"),
+			hu("(*Health).readyzHandler"), hu("(*Health).WaitForReady"), hu("(*Health).WaitForReady$1"),
+			{Fn: "internal/common.(*GenericSyncMap).Store", Include: []string{`^ensures:`, `^guard:`, `^lockorder:`}}, {Fn: "internal/common.(*GenericSyncMap).Len", Include: []string{`^ensures:`, `^guard:`, `^lockorder:`}}},
+		Assume: []string{"no component is registered under the name 'overall' (the status map reuses that key)",
+			"http.ResponseWriter.WriteHeader / json.Encoder.Encode contracts (ghost status code / encoded value)",
+			"concurrency: the registry map is havocked at every acquisition of its lock (any interleaving of lock-respecting goroutines); sync.Mutex semantics assumed",
+			"observation O2 (DESIGN.md 5): cmd/namedpipe.go registers the component name 'named-pipe-processor' twice, so one OnReady satisfies both registrations; C18 is phrased over names and holds"},
+		Explain: "contracts over the registry view, verified in lock-invariant mode (the map's contents are havocked each time its lock is acquired; postconditions refer to atlock(m), the contents at the acquisition = linearisation point): AddReadiness/OnReady set exactly their key; IsReady == all registered are ready; GetReadyzStatusMap returns a fresh map whose per-component statuses and 'overall' are computed from ONE snapshot (the Iterate critical section; the earlier Len() only sizes the map), overall ok iff all ready; readyzHandler writes 200 iff that snapshot is all-ready, else 503, and encodes the same map; the WaitForReady goroutine closes the channel only right after IsReady returned true and sends only on the cancellation arm",
+	}
+	m["C12"] = propDef{ID: "C12", Level: "proof",
+		Units: []unit{u("ingesters/namedpipe.(*NamedPipeIngester).Ingest")},
+		Assume: []string{bufioDoc, "independence of how the writer chunks its bytes is carried by that assumed bufio contract (stated over the byte stream, not over read calls); what is proved is that Ingest adds no framing error of its own",
+			"the goroutine that opens the FIFO is joined at the receive from the channel it closes (its writes to file/err are visible there: Go memory model)"},
+		Explain: "loop invariant of Ingest's read loop over the assumed contract of bufio.Reader.ReadString: the callbacks made so far are exactly the records returned so far, in order, each with exactly the record's bytes (cb[i].line == rdstream(r, i)), the same context and callback value, and all returned nil; exits only by returning the reader's error (so never nil, end-of-stream surfaces as an error, the unterminated tail is never delivered because the error check precedes the callback) or the first non-nil callback error unchanged (identity), after which no callback is made",
+	}
 	m["C14"] = propDef{ID: "C14", Level: "proof",
 		Units: trk(
 			nil,
